@@ -32,15 +32,42 @@ OLD = 1000000000  # mtime given to every materialised file (2001): any later wri
 # ---------------------------------------------------------------------------
 # observation: audit hook + recording host context
 # ---------------------------------------------------------------------------
+class GuardRefused(RuntimeError):
+    """The code under test tried to write outside the scratch area; the driver refused (and recorded it)."""
+
+
 class Audit(object):
+    """sys.addaudithook recorder.  While a guard directory is set, every write-like operation whose destination
+    lies outside it is REFUSED before it happens (the hook raises) and recorded as ("blocked", path): the driver
+    never writes outside its scratch directory, even when the code under test is broken."""
+
+    WRITERS = ("cp", "mv", "install", "ln", "touch", "mkdir", "rm", "tee", "dd", "rsync")
+
     def __init__(self):
         self.on = False
+        self.guard = None
         self.events = []
         self.lock = threading.Lock()
+        self.busy = threading.local()
+
+    def outside(self, path):
+        if not self.guard or not isinstance(path, str):
+            return False
+        p = os.path.abspath(path)
+        if p.startswith(("/dev/", "/proc/")):
+            return False
+        real = os.path.join(os.path.realpath(os.path.dirname(p)), os.path.basename(p))
+        return not (real == self.guard or real.startswith(self.guard + "/"))
+
+    def refuse(self, path):
+        with self.lock:
+            self.events.append(("blocked", os.path.abspath(path), True))
+        raise GuardRefused("write outside the scratch area refused: %s" % path)
 
     def hook(self, name, args):
-        if not self.on:
+        if not self.on or getattr(self.busy, "v", False):
             return
+        self.busy.v = True
         try:
             if name == "open":
                 path, mode, flags = args
@@ -48,28 +75,70 @@ class Audit(object):
                     path = path.decode("utf-8", "surrogateescape")
                 if isinstance(path, str):
                     wr = bool(flags & (os.O_WRONLY | os.O_RDWR | os.O_CREAT | os.O_TRUNC | os.O_APPEND))
+                    if wr and self.outside(path):
+                        self.refuse(path)
                     with self.lock:
                         self.events.append(("open", path, wr))
+            elif name in ("os.mkdir", "os.rename", "os.symlink", "os.link", "os.truncate", "os.remove", "os.rmdir",
+                          "os.chmod", "os.chown", "shutil.copyfile", "shutil.copytree", "shutil.move",
+                          "shutil.copymode", "shutil.copystat", "shutil.rmtree", "shutil.make_archive"):
+                cands = [a for a in args[:2] if isinstance(a, (str, bytes))]
+                if name in ("os.mkdir", "os.truncate", "os.remove", "os.rmdir", "os.chmod", "os.chown", "shutil.rmtree"):
+                    cands = cands[:1]
+                elif len(cands) == 2 and name not in ("os.rename", "shutil.move"):
+                    cands = cands[1:]                      # (src, dst): only the destination is written
+                for a in cands:
+                    a = a.decode("utf-8", "surrogateescape") if isinstance(a, bytes) else a
+                    if self.outside(a):
+                        self.refuse(a)
             elif name == "subprocess.Popen":
                 exe, argv = args[0], args[1]
                 argv = [a.decode("utf-8", "surrogateescape") if isinstance(a, bytes) else str(a)
                         for a in (argv if isinstance(argv, (list, tuple)) else [argv])]
+                cmd = argv[4:] if argv and os.path.basename(argv[0]) == "timeout" and len(argv) > 4 else argv
+                if cmd and os.path.basename(cmd[0]) in self.WRITERS:
+                    paths = [a for a in cmd[1:] if a.startswith("/")]
+                    if os.path.basename(cmd[0]) in ("cp", "mv", "install", "ln", "rsync"):
+                        paths = paths[-1:]
+                    for a in paths:
+                        if self.outside(a):
+                            self.refuse(a)
                 with self.lock:
                     self.events.append(("exec", argv, False))
             elif name in ("os.system", "os.exec", "os.posix_spawn", "os.spawn"):
                 with self.lock:
                     self.events.append(("exec", [str(a) for a in args], False))
+        except GuardRefused:
+            raise
         except Exception:
             pass
+        finally:
+            self.busy.v = False
 
-    def start(self):
+    def start(self, guard=None):
         self.events = []
+        self.guard = os.path.realpath(guard) if guard else None
         self.on = True
 
     def stop(self):
         self.on = False
+        self.guard = None
         ev, self.events = self.events, []
         return ev
+
+
+def destinations(aud, W):
+    """(dsts, blocked): destination strings seen by the audit hook, as segments relative to W; refused writes
+    outside the scratch area as pseudo-locations <<"<outside>", ...>>."""
+    dsts, blocked = [], []
+    for kind, a, wr in aud:
+        if kind == "open" and wr and a.startswith(W + "/"):
+            dsts.append(a[len(W) + 1:].split("/"))
+        elif kind == "exec" and len(a) >= 3 and os.path.basename(a[0]) == "cp" and a[-1].startswith(W + "/"):
+            dsts.append(a[-1][len(W) + 1:].split("/"))
+        elif kind == "blocked":
+            blocked.append(["<outside>"] + [x for x in a.split("/") if x])
+    return dsts, blocked
 
 
 AUDIT = Audit()
@@ -309,7 +378,7 @@ class PathRunner(object):
         b = dr.Broker()
         b[persisted_component] = value
         h = Hydration(outdir)
-        AUDIT.start()
+        AUDIT.start(guard=self.base)
         try:
             h.dehydrate(persisted_component, b)
         finally:
@@ -317,12 +386,9 @@ class PathRunner(object):
         after = tree.snapshot()
         bf, af = before[0], after[0]
         written = [tree.loc(p) for p in sorted(af) if p not in bf or af[p] != bf[p]]
-        dsts = []
-        for kind, a, wr in aud:
-            if kind == "open" and wr and a.startswith(tree.W + "/"):
-                dsts.append(a[len(tree.W) + 1:].split("/"))
-            elif kind == "exec" and len(a) >= 3 and os.path.basename(a[0]) == "cp" and a[-1].startswith(tree.W + "/"):
-                dsts.append(a[-1][len(tree.W) + 1:].split("/"))
+        dsts, blocked = destinations(aud, tree.W)
+        written += blocked
+        dsts += blocked
         self.stats["persists"] += 1
         self.stats["datafiles"] += sum(1 for w in written if "meta_data" not in w)
         tree.restore(before, after, outdir)
@@ -444,12 +510,18 @@ class PathRunner(object):
 # deny list
 # ---------------------------------------------------------------------------
 class DenyRunner(object):
-    FILES = {"/x/ab": "1", "/x/b": "2", "/x/c": "3", "/etc/hosts": "4", "/etc/fstab": "5"}
+    """The deny-list world W2/{root, out}: every declarative factory is evaluated by dr.run under a recording host
+    context with the Hydration.make_persister observer, after insights.collect.apply_blacklist(cfg)."""
+    FILES = {"/x/ab": "1", "/x/my b": "2", "/x/c": "3", "/etc/hosts": "4", "/etc/fstab": "5"}
+    SAVE_AS = {"none": None, "file": "sv/x", "dir": "sv/", "absfile": "/sv/x", "absdir": "/sv/", "bare": "sv"}
+    LAY = dict(fs=[dict(k="dir", p=1, n="", abs=False, segs=[]), dict(k="dir", p=1, n="root", abs=False, segs=[]),
+                   dict(k="dir", p=1, n="out", abs=False, segs=[])], root=["root"], out=3)
 
     def __init__(self, base):
         import insights.specs.default as default
         self.default = default.DefaultSpecs
-        self.W = os.path.join(os.path.realpath(base), "deny")
+        self.base = os.path.realpath(base)
+        self.W = os.path.join(self.base, "deny")
         if os.path.exists(self.W):
             shutil.rmtree(self.W)
         self.root = os.path.join(self.W, "root")
@@ -461,25 +533,49 @@ class DenyRunner(object):
             os.makedirs(os.path.dirname(p), exist_ok=True)
             with open(p, "w") as f:
                 f.write(content)
+            os.utime(p, (OLD, OLD))
             st = os.stat(p)
             self.ino[(st.st_dev, st.st_ino)] = rel
-        self.stats = dict(collects=0, items=0, accessed=0, really_executed=0, docs=0)
-        T, R = sf.TextFileProvider, sf.RawFileProvider
-        names = ["ab", "b", "c"]
-        self.fac = {}
-        for kn, k in (("text", T), ("raw", R)):
-            self.fac[("simple_file", kn)] = sf.simple_file("/x/ab", context=HostContext, kind=k)
-            self.fac[("glob_file", kn)] = sf.glob_file("/x/*", context=HostContext, kind=k)
-            self.fac[("first_file", kn)] = sf.first_file(["/x/ab", "/x/b", "/x/c"], context=HostContext, kind=k)
-            self.fac[("foreach_collect", kn)] = sf.foreach_collect(items_provider, "/x/%s", context=HostContext, kind=k)
-        self.prov = {"foreach_collect": names, "command_with_args": "ab", "foreach_execute": names,
-                     "container_execute": [("img", "podman", "k" + n) for n in names],
-                     "container_collect": [("img", "podman", "k" + n, "/x/" + n) for n in names]}
-        self.fac[("simple_command", "text")] = sf.simple_command("/bin/echo ab", context=HostContext)
-        self.fac[("command_with_args", "text")] = sf.command_with_args("/bin/echo %s", items_provider, context=HostContext)
-        self.fac[("foreach_execute", "text")] = sf.foreach_execute(items_provider, "/bin/echo %s", context=HostContext)
-        self.fac[("container_execute", "text")] = sf.container_execute(items_provider, "ls -l", context=HostContext)
-        self.fac[("container_collect", "text")] = sf.container_collect(items_provider, context=HostContext)
+        self.stats = dict(collects=0, items=0, accessed=0, really_executed=0, docs=0, fpersists=0, datafiles=0,
+                          blocked=0, blank_items=0)
+        self.cache = {}
+
+    def factory(self, fac, kind, saveas, items):
+        """the factory instance, built through its real __init__ (which normalises save_as)"""
+        strs = [" ".join(i["w"]) for i in items]
+        key = (fac, kind, saveas, tuple(strs))
+        if key in self.cache:
+            return self.cache[key]
+        K = sf.TextFileProvider if kind == "text" else sf.RawFileProvider
+        kw = {} if saveas == "none" else {"save_as": self.SAVE_AS[saveas]}
+        prov = None
+        if fac == "simple_file":
+            f = sf.simple_file(strs[0], context=HostContext, kind=K, **kw)
+        elif fac == "first_file":
+            f = sf.first_file(strs, context=HostContext, kind=K, **kw)
+        elif fac == "glob_file":
+            f = sf.glob_file("/x/*", context=HostContext, kind=K, **kw)
+        elif fac == "foreach_collect":
+            f = sf.foreach_collect(items_provider, "/x/%s", context=HostContext, kind=K, **kw)
+            prov = [x[len("/x/"):] for x in strs]
+        elif fac == "simple_command":
+            f = sf.simple_command(strs[0], context=HostContext, **kw)
+        elif fac == "command_with_args":
+            f = sf.command_with_args("/bin/echo %s", items_provider, context=HostContext, **kw)
+            prov = strs[0].split(" ", 1)[1]
+        elif fac == "foreach_execute":
+            f = sf.foreach_execute(items_provider, "/bin/echo %s", context=HostContext)
+            prov = [x.split(" ", 1)[1] for x in strs]
+        elif fac == "container_execute":
+            f = sf.container_execute(items_provider, "ls -l", context=HostContext)
+            prov = [("img", "podman", i["w"][2]) for i in items]
+        elif fac == "container_collect":
+            f = sf.container_collect(items_provider, context=HostContext)
+            prov = [("img", "podman", i["w"][2], i["w"][4]) for i in items]
+        else:
+            raise ValueError(fac)
+        self.cache[key] = (f, prov)
+        return f, prov
 
     def reset(self):
         blacklist._FILE_FILTERS.clear()
@@ -488,12 +584,22 @@ class DenyRunner(object):
         blacklist._KEYWORD_FILTERS.clear()
         del blacklist.BLACKLISTED_SPECS[:]
 
+    def snapshot(self):
+        files = {}
+        for d, dn, fn in os.walk(self.W):
+            for x in fn:
+                p = os.path.join(d, x)
+                st = os.lstat(p)
+                files[p] = (st.st_ino, st.st_size, st.st_mtime_ns)
+        return files
+
     def run_case(self, case, kind):
         fac = case["factory"]
+        saveas = case.get("saveas", "none")
         if fac == "spec":
-            ds = getattr(self.default, case["comp"])
+            ds, prov = getattr(self.default, case["comp"]), None
         else:
-            ds = self.fac[(fac, kind)]
+            ds, prov = self.factory(fac, kind, saveas, case["items"])
         cfg = {"files": [" ".join(w) for w in case["files"]], "commands": [" ".join(w) for w in case["commands"]],
                "components": list(case["comps"])}
         self.reset()
@@ -501,11 +607,12 @@ class DenyRunner(object):
         ctx = RecHostContext(self.root)
         broker = dr.Broker()
         broker[HostContext] = ctx
-        if fac in self.prov:
-            broker[items_provider] = self.prov[fac]
+        if prov is not None:
+            broker[items_provider] = prov
         h = Hydration(self.out)
         broker.add_observer(h.make_persister(set([ds])))
-        AUDIT.start()
+        before = self.snapshot()
+        AUDIT.start(guard=self.base)
         try:
             collect_mod.apply_blacklist(cfg)
             dr.run(dr.get_dependency_graph(ds), broker)
@@ -514,9 +621,12 @@ class DenyRunner(object):
             self.reset()
             for n, e in was.items():
                 dr.set_enabled(getattr(self.default, n), e)
+        after = self.snapshot()
         opened = set()
         execd = [a for k, a, _ in aud if k == "exec"] + ctx.calls
         for k, a, wr in aud:
+            if k == "blocked":
+                continue
             cands = [a] if k == "open" else [x for x in a if x.startswith("/")]
             for p in cands:
                 if p.startswith(self.root):
@@ -531,7 +641,8 @@ class DenyRunner(object):
         for it in case["items"]:
             w = it["w"]
             if it["t"] == "file":
-                acc = w[0] in opened
+                acc = " ".join(w) in opened
+                self.stats["blank_items"] += int(len(w) > 1)
             else:
                 acc = any(a[-len(w):] == w for a in execd if len(a) >= len(w))
             items.append(dict(t=it["t"], w=w, acc=acc))
@@ -540,13 +651,25 @@ class DenyRunner(object):
         self.stats["really_executed"] += sum(1 for k, a, _ in aud if k == "exec" and any("/bin/echo" in x or "/bin/date" in x for x in a))
         md = os.path.join(self.out, "meta_data")
         self.stats["docs"] += len(os.listdir(md)) if os.path.isdir(md) else 0
-        for d, dn, fn in os.walk(self.out):          # keep the directories (rmdir is slow), drop the files
-            for x in fn:
-                os.unlink(os.path.join(d, x))
+        # what the observer persisted, anywhere in the deny world
+        written = [os.path.relpath(p, self.W).split("/") for p in sorted(after) if p not in before or after[p] != before[p]]
+        dsts, blocked = destinations(aud, self.W)
+        self.stats["fpersists"] += 1
+        self.stats["datafiles"] += sum(1 for w in written if "meta_data" not in w)
+        self.stats["blocked"] += len(blocked)
+        for p in after:                             # undo: drop created files, restore modified ones
+            if p not in before:
+                os.unlink(p)
+            elif after[p] != before[p]:
+                rel = p[len(self.root):]
+                with open(p, "w") as f:
+                    f.write(self.FILES.get(rel, ""))
+                os.utime(p, (OLD, OLD))
         self.stats["collects"] += 1
-        return dict(ev="collect", factory=fac, kind=kind, comp=case["comp"], files=case["files"],
-                    commands=case["commands"], comps=case["comps"], items=items,
-                    stored=(ds in broker))
+        return [dict(ev="collect", factory=fac, kind=kind, comp=case["comp"], files=case["files"],
+                     commands=case["commands"], comps=case["comps"], items=items, stored=(ds in broker)),
+                dict(ev="fpersist", factory=fac, kind=kind, saveas=saveas, path=[], written=written + blocked,
+                     dsts=dsts + blocked)]
 
 
 def main():
@@ -570,8 +693,8 @@ def main():
         dn = DenyRunner(base)
         for case in req["deny"]:
             kinds = ["text", "raw"] if case["factory"] in ("simple_file", "glob_file", "first_file", "foreach_collect") else ["text"]
-            evs = [dn.run_case(case, k) for k in kinds]
-            traces.append(dict(id=case["id"], kind="deny", lay=dict(fs=[], root=[], out=0), events=evs))
+            evs = [e for k in kinds for e in dn.run_case(case, k)]
+            traces.append(dict(id=case["id"], kind="deny", lay=dn.LAY, events=evs))
         stats["deny"] = dn.stats
         shutil.rmtree(dn.W, True)
     with open(sys.argv[2], "w") as f:
